@@ -210,7 +210,12 @@ mpn_perfect_square_p (mp_srcptr up, mp_size_t usize)
 
 
   /* For the third and last test, we finally compute the square root,
-     to make sure we've really got a perfect square.  */
+     to make sure we've really got a perfect square.  mpn_sqrtrem needs a
+     non-zero most significant limb, which {up,usize} need not have.  */
+  MPN_NORMALIZE (up, usize);
+  if (usize == 0)
+    return 1;			/* zero is a square */
+
   {
     mp_ptr root_ptr;
     int res;
